@@ -71,6 +71,10 @@ func runC06(p *Prog, r *Result) {
 	checkIteratorProtocol(p, r, pkg, "syntax", "R06j")
 	r.Rule("R06i", "indexes at a constant position or constant offset on slices and strings in package syntax are dominated by a test of that value's length, or are reasoned exceptions", 60)
 	checkConstIndexes(p, r, pkg, "syntax", "R06i", c06IndexExceptions)
+	r.Rule("R06l", "an error stored without a token (fill) is turned into _EOF by the epilogue of both token producers on every fall-through path — the premise of R06h's `reports an error` exits", 2)
+	checkErrorReachesToken(p, r, pkg, "R06l")
+	r.Rule("R06m", "every recursion cycle among the parser's methods compares a depth counter with a limit (unbounded nesting ends in a fatal stack overflow)", 1)
+	checkRecursionBounded(p, r, pkg, "R06m")
 	r.Rule("R06k", "the read buffer is indexed at the cursor only past a test of the cursor against its length or past a non-zero fill(); fill stores the cursor only as 0 (or under a length test)", 5)
 	checkCursorContract(p, r, pkg, "R06k")
 }
@@ -82,10 +86,10 @@ var c06IndexExceptions = map[string]string{
 	"syntax.SplitBraces#cur.Elems":                "cur is the innermost open brace, which received its first element when it was opened",
 	"syntax.(CallExpr).Pos#c.Args":                "the parser builds a CallExpr only once it has an assignment or a word; with no assignments there is a first word",
 	"syntax.(CallExpr).End#c.Assigns":             "reached only when there are no words, and then there is at least one assignment",
-	"syntax.(LetClause).End#l.Exprs":              "letClause reports `let clause requires at least one expression` otherwise",
+	"syntax.(LetClause).End#l.Exprs":              "built non-empty `LetClause.Exprs`: letClause appends an expression or reports \"let must be followed by an expression\" on every path",
 	"syntax.(Word).Pos#w.Parts":                   "the parser never builds a word without parts (recovery fills in a literal at the recovered position)",
 	"syntax.(Word).End#w.Parts":                   "as for Word.Pos",
-	"syntax.(Printer).wordParts#wps":              "called with the parts of a word or of quotes, which are never empty for parser-built trees",
+	"syntax.(Printer).wordParts#wps":              "only under `!quoted`: unquoted calls pass the parts of a word, which the parser never builds empty (see Word.Pos); quoted calls can pass the parts of an empty \"\", and the short-circuit keeps the index away from those",
 	"syntax.(Printer).decLevel#p.levelIncs":       "decLevel pops what the matching incLevel pushed (paired calls in every printer function)",
 	"syntax.(Parser).advanceLitHdoc#p.hdocStops":  "runs only while a here-document body is being read, after doHeredocs pushed its stop word",
 	"syntax.(Parser).quotedHdocWord#p.hdocStops":  "as for advanceLitHdoc",
@@ -1048,6 +1052,12 @@ func findBspMinus(info *types.Info, fd *ast.FuncDecl, e ast.Expr) ast.Expr {
 }
 
 var c06Controls = []Control{
+	{Name: "token-producer-drops-its-error-epilogue", Rule: "R06l", WantKey: "nextKeepSpaces#a stored error forces the token", File: "syntax/lexer.go",
+		Mutate: ctlReplaceAnywhere("\t\t\tp.advanceLitOther(r)\n\t\t}\n\t}\n\tif p.err != nil {\n\t\tp.tok = _EOF\n\t}\n}\n\nfunc (p *Parser) next() {", "\t\t\tp.advanceLitOther(r)\n\t\t}\n\t}\n}\n\nfunc (p *Parser) next() {")},
+	{Name: "let-with-only-redirects-accepted", Rule: "R06i", WantKey: "(LetClause).End#l.Exprs", File: "syntax/parser.go",
+		Mutate: ctlReplaceAnywhere("\tif len(lc.Exprs) == 0 {\n\t\tp.followErrExp(lc.Let, \"let\")", "\tif len(lc.Exprs) == 0 && !p.peekRedir() {\n\t\tp.followErrExp(lc.Let, \"let\")")},
+	{Name: "first-part-line-hoisted-out-of-the-guard", Rule: "R06i", WantKey: "wordParts#wps[0]", File: "syntax/printer.go",
+		Mutate: ctlReplaceAnywhere("\tif !quoted && !p.singleLine && wps[0].Pos().Line() > p.line {", "\tstartLine := wps[0].Pos().Line()\n\tif !quoted && !p.singleLine && startLine > p.line {")},
 	{Name: "fill-skips-prefix-without-length-test", Rule: "R06k", WantKey: "fill#cursor store", File: "syntax/lexer.go",
 		Mutate: ctlReplaceAnywhere("\tp.bsp = 0\n\treturn n\n", "\tp.bsp = 0\n\tif p.offs == 0 && left == 0 && n >= 3 && p.bs[0] == 0xef {\n\t\tp.bsp = 3\n\t}\n\treturn n\n")},
 	{Name: "rune-indexes-without-refill-test", Rule: "R06k", WantKey: "rune#p.bs[p.bsp]", File: "syntax/lexer.go",
